@@ -210,6 +210,12 @@ def random_worker(job):
     return st
 
 
+# ("\\0" is rejected by this implementation — pinned by its own unit test test_delimiter_parsing — so it is not used; -0 covers NUL)
+DELIM_SPELLINGS = [(7, "\\a"), (8, "\\b"), (12, "\\f"), (10, "\\n"), (13, "\\r"), (9, "\\t"), (11, "\\v"), (92, "\\\\"),
+                   (44, ","), (44, "\\x2c"), (44, "\\054"), (11, "\\x0b"), (12, "\\014"), (9, "\\x09"), (58, ":"), (97, "a"), (32, " "),
+                   (10, "\\012"), (7, "\\x07"), (39, "'"), (34, '"')]
+
+
 def binary_worker(job):
     k, nruns, seed, base = job
     st = Stats()
@@ -217,15 +223,27 @@ def binary_worker(job):
     wd = os.path.join(base, "b%d" % k)
     os.makedirs(wd)
     for i in range(nruns):
-        mode = rng.choice([-1, -1, 0, ord(",")])
-        if rng.random() < 0.5:
-            data = long_input(rng, rng.choice([300, 4100, 8200]), None if mode < 0 else mode)
+        mode = rng.choice([-1, -1, 0, ord(","), "spelled"])
+        if mode == "spelled":
+            # -d C with C spelled as a literal character, a C-style escape, a hex or an octal escape (all documented spellings);
+            # the data contains every candidate delimiter byte so that a wrong mapping shows
+            mode, spelling = rng.choice(DELIM_SPELLINGS)
+            pieces = [b"a", b"bc", b"'q'", b"\\", b" ", bytes([mode])] + [bytes([c]) for c in (7, 8, 9, 10, 11, 12, 13, 44, 92)]
+            data = b"".join(rng.choice(pieces) for _ in range(rng.randint(1, 14))).replace(b"\0", b"")
+            if mode == 0:
+                data = data + b"\0x\0"
+            opts = ["-d", spelling] if rng.random() < 0.7 else ["--delimiter=" + spelling]
+            st.add("delimiter_spellings", spelling)
+            st.inc("spelled_delimiter_runs")
         else:
-            alpha = ALPHA_DEFAULT if mode < 0 else (ALPHA_NUL if mode == 0 else ALPHA_COMMA)
-            data = b"".join(rng.choice(alpha) for _ in range(rng.randint(0, 12)))
-        if mode < 0 and b"\0" in data:
+            if rng.random() < 0.5:
+                data = long_input(rng, rng.choice([300, 4100, 8200]), None if mode < 0 else mode)
+            else:
+                alpha = ALPHA_DEFAULT if mode < 0 else (ALPHA_NUL if mode == 0 else ALPHA_COMMA)
+                data = b"".join(rng.choice(alpha) for _ in range(rng.randint(0, 12)))
+            opts = [] if mode < 0 else (["-0"] if mode == 0 else ["-d", ","])
+        if mode != 0 and b"\0" in data:
             continue
-        opts = [] if mode < 0 else (["-0"] if mode == 0 else ["-d", ","])
         ref = xref.tokenize(data) if mode < 0 else None
         results = []
         for name, ch in list(chunkings(rng, data))[:1] + [rng.choice(list(chunkings(rng, data))[1:])]:
@@ -301,7 +319,7 @@ def run(ctx):
     ctx.exhaustive = True
     ctx.extra_cov["exhaustive_bound"] = "default mode: all inputs of <= %d symbols over 8 symbols; -0: <= %d; -d ,: <= %d" % (L, ctx.scale(5, 7), ctx.scale(5, 6))
     ctx.pmap(random_worker, [(k, ctx.scale(4, 60), ctx.seed, base) for k in range(nw)])
-    ctx.pmap(binary_worker, [(k, ctx.scale(6, 120), ctx.seed, base) for k in range(nw)])
+    ctx.pmap(binary_worker, [(k, ctx.scale(24, 240), ctx.seed, base) for k in range(nw)])
     for key in ("cuts_inside_quote", "cuts_after_backslash", "cuts_inside_multibyte_char", "cuts_at_4096_buffer_edge",
                 "chunkings_with_interrupted_reads", "inputs_with_unterminated_quote", "binary_runs", "delim_mode_inputs"):
         ctx.require(key, 5)
